@@ -100,6 +100,45 @@ def cplugin_path():
     return p
 
 
+CPLUGIN3 = '''
+r"""C plugin with an external source file that is swapped between two revisions (verification harness)."""
+from numpy import inf
+name = "rtm_c3"
+title = "c3"
+description = "c3"
+category = "shape:sphere"
+parameters = [["radius", "Ang", 30, [0, inf], "volume", "size"]]
+source = ["rtm_c3_inc.c"]
+form_volume = """
+    return 1.0;
+"""
+Iq = """
+    return c3_const()*exp(-q*q*radius*radius/3.0);
+"""
+'''
+
+
+def cplugin3_path(version):
+    """The plugin with revision *version* of its C file in place.  Revision B carries an OLDER time stamp than revision A
+    (a backup copied back with its times preserved).  One directory per process: processes do not share these files."""
+    d = os.path.join(os.environ.get("RTM_C11_DIR") or os.environ.get("RTM_SCRATCH") or tempfile.gettempdir(), "c11plugin3",
+                     "p%d" % os.getpid())
+    os.makedirs(d, exist_ok=True)
+    p, c = os.path.join(d, "rtm_c3.py"), os.path.join(d, "rtm_c3_inc.c")
+    t0 = 1_700_000_000
+    if not os.path.exists(p):
+        with open(p, "w") as f:
+            f.write(CPLUGIN3)
+        os.utime(p, (t0, t0))
+    text = "static double c3_const(void) { return %s; }\n" % {"A": "3.0", "B": "7.0"}[version]
+    if not os.path.exists(c) or open(c).read() != text:
+        with open(c, "w") as f:
+            f.write(text)
+    stamp = t0 + 500 if version == "A" else t0 - 500
+    os.utime(c, (stamp, stamp))
+    return p
+
+
 def plugin2_path():
     """A different definition under the same file name (hence the same model id) in another directory."""
     d = os.path.join(os.environ.get("RTM_C11_DIR") or os.environ.get("RTM_SCRATCH") or tempfile.gettempdir(), "c11plugin", "other")
@@ -260,6 +299,15 @@ def requests():
         array={"par": "radius", "values": [30.0, 38.5, 44.0, 51.25, 60.0], "weights": [0.7, 1.9, 3.3, 2.1, 0.6]})
     add("cylinder/sasview-array", model="cylinder", q=Q3, via="sasview", pars=cyl,
         array={"par": "length", "values": [250.0, 300.0, 333.0, 410.0], "weights": [1.0, 3.0, 3.0, 1.7]})
+    c3 = {"radius": 25.0, "scale": 1.5, "background": 0.2}
+    add("cplug3/A", model="CPLUGIN3:A", q=Q3, pars=c3)
+    add("cplug3/B", model="CPLUGIN3:B", q=Q3, pars=c3)
+    # the monodisperse switch of the entry points, with dispersity entries present in the caller's dictionary
+    add("sphere/pd35-mono", model="sphere", q=Q3, pars=dict(sph, radius_pd=0.15, radius_pd_n=35, radius_pd_nsigma=3), mono=True)
+    add("cylinder/pd165-mono", model="cylinder", q=Q3, mono=True,
+        pars=dict(cyl, radius_pd=0.1, radius_pd_n=15, length_pd=0.2, length_pd_n=11, length_pd_type="lognormal"))
+    add("cylinder/Fq3pd-mono", model="cylinder", q=Q3, via="call_Fq", mono=True,
+        pars=dict(cyl, radius_effective_mode=3, radius_pd=0.1, radius_pd_n=8))
     # requests whose values agree to six significant digits and differ beyond
     add("sphere/pd-r50", model="sphere", q=Q3, pars=dict(sph, radius=50.0, radius_pd=0.1, radius_pd_n=9))
     add("sphere/pd-r50eps", model="sphere", q=Q3, pars=dict(sph, radius=50.00002, radius_pd=0.1, radius_pd_n=9))
@@ -312,6 +360,9 @@ class State:
 
     def model(self, name):
         from sasmodels import core as sascore
+        if name.startswith("CPLUGIN3:"):
+            # loaded anew at every use, with the requested revision of its C file in place
+            return sascore.load_model(cplugin3_path(name.split(":")[1]), dtype="double", platform="dll")
         if name not in self.models:
             path = plugin_path() if name == "PLUGIN" else plugin2_path() if name == "PLUGIN2" else \
                 cplugin_path() if name == "CPLUGIN" else name
@@ -320,6 +371,8 @@ class State:
 
     def kernel(self, name, q):
         key = (name, json.dumps(q))
+        if name.startswith("CPLUGIN3:"):
+            self.kernels.pop(key, None)            # (always through a new load)
         if key not in self.kernels:
             qv = [np.array(q, float)] if not isinstance(q[0], (list, tuple)) else [np.array(q[0], float), np.array(q[1], float)]
             # the kernel is made from the caller's own buffers, which the caller then reuses for something else:
@@ -356,9 +409,9 @@ def evaluate(state, req, snapshots=None, keep=None):
         kernel, qv = state.kernel(name, q)
         qbefore = [a.copy() for a in qv]
         if via == "call_kernel":
-            res = direct_model.call_kernel(kernel, pars, cutoff=req["cutoff"])
+            res = direct_model.call_kernel(kernel, pars, cutoff=req["cutoff"], mono=bool(req.get("mono")))
         else:
-            res = direct_model.call_Fq(kernel, pars, cutoff=req["cutoff"])
+            res = direct_model.call_Fq(kernel, pars, cutoff=req["cutoff"], mono=bool(req.get("mono")))
         if snapshots is not None:
             snapshots.append(("q vectors", [a.tolist() for a in qbefore], [a.tolist() for a in qv]))
     elif via == "direct":
@@ -575,6 +628,9 @@ def gen_history(rng, reqs, h):
             ["eval", "sphere/sasview"], ["eval", "sphere/sasview-array"], ["eval", "cylinder/sasview-array"],
             ["eval", "cylinder/sasview-array"]]
     ops += [["redisperse", "sphere/sasview-rect"], ["eval", "sphere/sasview"]]
+    ops += [["eval", "cplug3/A"], ["eval", "cplug3/B"], ["eval", "cplug3/A"], ["eval", "cplug3/B"]]
+    ops += [["eval", "sphere/pd35"], ["eval", "sphere/pd35-mono"], ["eval", "sphere/pd35"], ["eval", "cylinder/pd165-mono"],
+            ["eval", "cylinder/pd165"], ["eval", "cylinder/Fq3pd-mono"], ["eval", "cylinder/Fq3pd"]]
     ops += [["eval", "sphere/pd-r50"], ["eval", "sphere/pd-r50eps"], ["eval", "sphere/pd-w01eps"], ["eval", "sphere/pd-r50"],
             ["eval", "sphere/sasview-r50"], ["eval", "sphere/sasview-r50eps"], ["eval", "sphere/sasview-r50"]]
     ops += [["eval", "sph@hs/sasview-mode1"], ["eval", "sph@hs/sasview-mode1-parts"], ["eval", "sph@hs/sasview-mode0"],
